@@ -14,6 +14,7 @@ MODULES = {
     "C04": "harness.rewrite",
     "C05": "harness.rewrite",
     "C06": "harness.rewrite",
+    "C07": "harness.scopes",
     "C08": "harness.rewrite",
     "C09": "harness.rewrite",
     "C10": "harness.intervals",
